@@ -319,6 +319,9 @@ namespace Pistache
             host_   = data.substr(start_pos, end_pos + 1);
             family_ = AF_INET6;
             ++end_pos;
+            // only ":port" may follow the closing bracket
+            if (end_pos < data.size() && data[end_pos] != ':')
+                throw std::invalid_argument("Invalid address, unexpected text after ']'");
         }
         else
         {
